@@ -73,6 +73,19 @@ CHECKS = {
         "re-encoding and error (which must name the property) with the model, and the generator's validity label with the Coq validator.",
    note="As C06. PARTIAL: `validates s j -> decode succeeds and re-encodes to the kept part` is not a theorem in this round.",
    ref="DESIGN.md section 4 (C06-C08)"),
+ "C09": dict(
+   technique="Coq proof that the handler's parse of the request built by the client model returns the sent parameter set (all locations, arrays, nullable, $refs; integer text round-trip proved, float/time as oracle hypotheses; body = JSON round-trip theorem) + differential run of the generated client against the generated server of the same package with an independent request validator on the wire",
+   text="C09_params_agree: for every operation declaration, base path and parameter set of the domain the client model builds a request and "
+        "parse_request of it is Ok of exactly what was sent (unset optionals unset; each value at its own parameter, using pairwise-distinct "
+        "names under the location's key comparison). C09_integer_text: ParseInt(FormatInt z) = z on the whole width. C09_body_agree: "
+        "dec (enc v) = v (the body path is json.Marshal / generated UnmarshalJSON). Tie: the generated client of each corpus package sends "
+        "seeded values (reserved URL/header characters, extreme numbers, zoned times, empty optionals, multi-element arrays, JSON and raw "
+        "bodies) into the generated API; the handler's Parse() dump, the request path and the call result are compared with the extracted "
+        "model and with the sent value; kin-openapi openapi3filter validates the wire request.",
+   note="Float and time formatting/parsing are oracle hypotheses (parse (format x) = x) instantiated from strconv/time. url.PathEscape/"
+        "QueryEscape and header canonicalisation are the transport between client_request and parse_request: checked by the run and the "
+        "independent validator, not by the theorem. Domain restrictions as the property states (DESIGN section 11).",
+   ref="DESIGN.md section 4 (C09)"),
  "C11": dict(
    technique="Coq proof over the model of NewRouter/authMiddlewareOr (soundness+completeness of the auth loop w.r.t. the operation's effective requirement) + enumeration of all small security configurations against the compiled package",
    text="C11_auth_sound/complete: for every spec the generator accepts, every API configuration and request, the authenticator loop emitted for an "
